@@ -122,6 +122,12 @@ type FuncInfo struct {
 	storesTo map[ssa.Value][]*ssa.Store
 	inTerm   map[ssa.Value]bool
 	memInfo  *memInfo
+
+	deep      bool                     // expand calls of small kvass predicates into their bodies
+	paramBind map[*ssa.Parameter]*Term // inlined instance: parameters bound to the caller's argument terms
+	outerFI   *FuncInfo                // inlined instance: the calling frame ...
+	outerAt   ssa.Instruction          // ... and the call instruction (for memory versions)
+	inlining  map[*ssa.Function]bool   // recursion guard
 }
 
 // Info returns (cached) analysis state for fn.
@@ -129,11 +135,18 @@ func (p *Prog) Info(fn *ssa.Function) *FuncInfo {
 	if fi := p.fiCache[fn]; fi != nil {
 		return fi
 	}
-	fi := &FuncInfo{P: p, Fn: fn, terms: map[ssa.Value]*Term{}, conds: map[ssa.Value]*Formula{}, Calls: map[string]ssa.Value{},
-		AtomPos: map[string]token.Pos{}, inTerm: map[ssa.Value]bool{}}
+	fi := p.newInfo(fn)
 	p.fiCache[fn] = fi
 	if par := fn.Parent(); par != nil {
 		fi.Parent = p.Info(par)
+	}
+	return fi
+}
+
+func (p *Prog) newInfo(fn *ssa.Function) *FuncInfo {
+	fi := &FuncInfo{P: p, Fn: fn, terms: map[ssa.Value]*Term{}, conds: map[ssa.Value]*Formula{}, Calls: map[string]ssa.Value{},
+		AtomPos: map[string]token.Pos{}, inTerm: map[ssa.Value]bool{}}
+	if par := fn.Parent(); par != nil {
 		fi.prefix = fn.Name() + "·"
 		// find the MakeClosure (or direct reference) in the parent
 		for _, b := range par.Blocks {
@@ -364,6 +377,9 @@ func (fi *FuncInfo) term(v ssa.Value) *Term {
 		}
 		return symTerm(v.Value.ExactString())
 	case *ssa.Parameter:
+		if t, ok := fi.paramBind[v]; ok {
+			return t
+		}
 		return symTerm(fi.prefix + v.Name())
 	case *ssa.FreeVar:
 		if fi.Parent != nil && fi.MC != nil {
@@ -879,6 +895,12 @@ func (fi *FuncInfo) cond(v ssa.Value) *Formula {
 		}
 	case *ssa.Phi:
 		return fi.phiCond(v)
+	case *ssa.Call:
+		if fi.deep {
+			if f := fi.inlineCond(v); f != nil {
+				return f
+			}
+		}
 	case *ssa.Extract:
 		t := fi.T(v)
 		if strings.HasPrefix(t.S, "has(") {
@@ -1032,4 +1054,90 @@ func (fi *FuncInfo) StructFieldByName(al *ssa.Alloc, name string) string {
 		return ""
 	}
 	return out
+}
+
+// Deep returns the variant of fi in which calls of small kvass predicates (single bool result, no
+// loops, static callee with a body) are replaced by the formula of their body, instantiated with the
+// argument terms of the call. Used as a fallback when an implication cannot be shown with the call
+// taken as an opaque atom, so that a guard moved into a helper predicate is still recognised.
+func (fi *FuncInfo) Deep() *FuncInfo {
+	if fi.deep {
+		return fi
+	}
+	p := fi.P
+	if p.fiDeep == nil {
+		p.fiDeep = map[*ssa.Function]*FuncInfo{}
+	}
+	if d := p.fiDeep[fi.Fn]; d != nil {
+		return d
+	}
+	d := p.newInfo(fi.Fn)
+	d.deep = true
+	if fi.Parent != nil {
+		d.Parent = fi.Parent.Deep()
+	}
+	p.fiDeep[fi.Fn] = d
+	return d
+}
+
+// inlineCond instantiates the callee's result formula at a call site.
+func (fi *FuncInfo) inlineCond(call *ssa.Call) *Formula {
+	callee := call.Call.StaticCallee()
+	if callee == nil || callee.Blocks == nil || !strings.HasPrefix(PkgOf(callee), ModPath) || len(callee.Blocks) > 24 {
+		return nil
+	}
+	res := callee.Signature.Results()
+	if res.Len() != 1 {
+		return nil
+	}
+	if b, ok := res.At(0).Type().Underlying().(*types.Basic); !ok || b.Kind() != types.Bool {
+		return nil
+	}
+	if fi.inlining[callee] || len(fi.inlining) > 3 {
+		return nil
+	}
+	inst := fi.P.newInfo(callee)
+	inst.deep = true
+	inst.prefix = fi.prefix + callee.Name() + "@" + call.Name() + "·"
+	inst.paramBind = map[*ssa.Parameter]*Term{}
+	for i, q := range callee.Params {
+		if i < len(call.Call.Args) {
+			inst.paramBind[q] = fi.T(call.Call.Args[i])
+		}
+	}
+	inst.outerFI, inst.outerAt = fi, call
+	inst.inlining = map[*ssa.Function]bool{callee: true}
+	for f := range fi.inlining {
+		inst.inlining[f] = true
+	}
+	// loops make the result depend on iteration: not a predicate we can expand
+	for _, b := range callee.Blocks {
+		for _, sc := range b.Succs {
+			if inst.IsBackEdge(b, sc) {
+				return nil
+			}
+		}
+	}
+	var alts []*Formula
+	entry := callee.Blocks[0]
+	for _, b := range callee.Blocks {
+		if b == callee.Recover || len(b.Instrs) == 0 {
+			continue
+		}
+		ret, ok := b.Instrs[len(b.Instrs)-1].(*ssa.Return)
+		if !ok {
+			continue
+		}
+		alts = append(alts, And(inst.relReach(entry, b, map[int]*Formula{}), inst.Cond(ret.Results[0])))
+	}
+	if len(alts) == 0 {
+		return nil
+	}
+	f := Or(alts...)
+	for a, ps := range inst.AtomPos {
+		if _, ok := fi.AtomPos[a]; !ok {
+			fi.AtomPos[a] = ps
+		}
+	}
+	return f
 }
